@@ -37,7 +37,26 @@ func gwHeader(p *gen.Project) map[string]interface{} {
 		}
 		prev = h.LowerDm
 	}
-	return map[string]interface{}{"gws": gws, "route": route, "corg100": corg, "knownH14": knownH14Listed}
+	h := map[string]interface{}{"gws": gws, "route": route, "corg100": corg, "knownH14": knownH14Listed}
+	if route == "explicit" {
+		// the given values per 10 cm layer at 1e-9 (the explicit route applies no stone correction)
+		fc, wp, pv := []int{}, []int{}, []int{}
+		prev = 0
+		all := true
+		for _, hz := range p.Soil.Horizons {
+			if hz.FC == 0 {
+				all = false
+			}
+			for l := prev; l < hz.LowerDm; l++ {
+				fc, wp, pv = append(fc, hz.FC*10000000), append(wp, hz.WP*10000000), append(pv, hz.PV*10000000)
+			}
+			prev = hz.LowerDm
+		}
+		if all {
+			h["fcBase"], h["wpBase"], h["pvBase"] = fc, wp, pv
+		}
+	}
+	return h
 }
 
 var knownH14Listed = func() bool {
@@ -91,7 +110,29 @@ func gwProjects(c *core.Ctx, n, years int, salt int64) []*gen.Project {
 			p.GWLow = p.GWHigh + r.Intn(30)
 			p.Cfg.GWPhase = []int{80, 0, 1, 179, 180, 270, 359, 45}[r.Intn(8)]
 		}
-		p.Arms = []string{fmt.Sprintf("gw=%s points=%d high=%d low=%d phase=%d", from, len(p.GWSeries), p.GWHigh, p.GWLow, p.Cfg.GWPhase)}
+		explicit := i%2 == 1 || i%6 == 2
+		if explicit {
+			// explicit field capacity / wilting point / pore volume in every horizon (restore-from-backup path of the
+			// daily groundwater block); every third one starts with the table inside the profile and lets it fall
+			for k := range p.Soil.Horizons {
+				wp := 3 + r.Intn(25)
+				fc := wp + 2 + r.Intn(25)
+				pv := fc + 1 + r.Intn(25)
+				p.Soil.Horizons[k].FC, p.Soil.Horizons[k].WP, p.Soil.Horizons[k].PV = fc, wp, pv
+			}
+			nl := p.Soil.Horizons[len(p.Soil.Horizons)-1].LowerDm
+			if from == "gwTimeSeries" && i%4 != 3 && len(p.GWSeries) > 0 {
+				p.GWSeries[0].Dm100 = 100 * (1 + r.Intn(nl))
+				if len(p.GWSeries) > 1 {
+					p.GWSeries[1].Dm100 = 100*nl + 300 + r.Intn(1000)
+				}
+			}
+			if from == "polygonfile" {
+				p.GWHigh = 1 + r.Intn(nl)
+				p.GWLow = p.GWHigh + 2 + r.Intn(20)
+			}
+		}
+		p.Arms = []string{fmt.Sprintf("gw=%s points=%d high=%d low=%d phase=%d explicit=%v", from, len(p.GWSeries), p.GWHigh, p.GWLow, p.Cfg.GWPhase, explicit)}
 		ps = append(ps, p)
 	}
 	return ps
